@@ -104,7 +104,9 @@ Definition two_way_concat_rule : rule :=
     end.
 
 (* ---------- one_bit_selects ---------- *)
-(* catlist = [src[i] for i in op_param]; dest <<= concat_list(catlist) *)
+(* dest = net.dests[0]
+   catlist = [src[i] for i in op_param[:len(dest)]]; dest <<= concat_list(catlist)
+   (a destination narrower than the index list takes the low selected bits only) *)
 Fixpoint bit_selects (src : wid) (next : Z) (idx : list Z) : list net :=
   match idx with
   | [] => []
@@ -114,7 +116,8 @@ Fixpoint bit_selects (src : wid) (next : Z) (idx : list Z) : list net :=
 Definition one_bit_selects_rule : rule :=
   fun nl next n =>
     match nop n, nargs n with
-    | OpSelect idx, [src] =>
+    | OpSelect idx0, [src] =>
+        let idx := firstn (Z.to_nat (width_of nl (ndest n))) idx0 in
         let k := length idx in
         match k with
         | O => None                       (* concat_list([]) raises: not a legal net *)
@@ -143,9 +146,13 @@ Fixpoint transform (rl : rule) (nl : netlist) (next : Z) (ns : list net) : repl 
       end
   end.
 
-Definition apply_rule (rl : rule) (nl : netlist) : netlist :=
-  let t := transform rl nl (fresh nl) (nets nl) in
+(* fresh temporaries are numbered from [next] (any next >= fresh nl will do:
+   PyRTL's temporaries get unused names) *)
+Definition apply_rule_at (next : Z) (rl : rule) (nl : netlist) : netlist :=
+  let t := transform rl nl next (nets nl) in
   mkNetlist (wires nl ++ snd t) (fst t) (mems nl).
+
+Definition apply_rule (rl : rule) (nl : netlist) : netlist := apply_rule_at (fresh nl) rl nl.
 
 Definition nand_synth : netlist -> netlist := apply_rule nand_rule.
 Definition and_inverter_synth : netlist -> netlist := apply_rule aig_rule.
@@ -163,14 +170,15 @@ Definition readers (nl : netlist) (w : wid) : list net :=
   filter (fun n => mem_in w (nargs n)) (nets nl).
 
 (* THE F4 SPOT: producers the pass refuses to retarget.
-   passes.py: `if net.op == '@': continue` -- nothing else is skipped, in
-   particular not 'r' (register) producers. *)
+   passes.py (after the F4 repair): `if net.op in '@r': continue`.
+   (Before the repair only '@' was skipped and `o <<= r` produced an 'r' net
+   whose destination is an Output; see dco_skips_unrepaired in Props/C09.v.) *)
 Definition dco_skips (o : op) : bool :=
-  match o with OpMemWr _ => true | _ => false end.
+  match o with OpMemWr _ | OpReg => true | _ => false end.
 
 (* the 'w' net into an Output that [n]'s destination exclusively feeds *)
-Definition dco_candidate (nl : netlist) (n : net) : option net :=
-  if dco_skips (nop n) then None
+Definition dco_candidate (skips : op -> bool) (nl : netlist) (n : net) : option net :=
+  if skips (nop n) then None
   else match readers nl (ndest n) with
        | [r] => match nop r with
                 | OpW => if is_output nl (ndest r) then Some r else None
@@ -179,13 +187,16 @@ Definition dco_candidate (nl : netlist) (n : net) : option net :=
        | _ => None
        end.
 
+Section DCO.
+Variable skips : op -> bool.
+
 Definition dco_removed_dests (nl : netlist) : list wid :=
-  flat_map (fun n => match dco_candidate nl n with Some r => [ndest r] | None => [] end) (nets nl).
+  flat_map (fun n => match dco_candidate skips nl n with Some r => [ndest r] | None => [] end) (nets nl).
 Definition dco_removed_wires (nl : netlist) : list wid :=
-  flat_map (fun n => match dco_candidate nl n with Some _ => [ndest n] | None => [] end) (nets nl).
+  flat_map (fun n => match dco_candidate skips nl n with Some _ => [ndest n] | None => [] end) (nets nl).
 
 Definition dco_net (nl : netlist) (rm : list wid) (n : net) : list net :=
-  match dco_candidate nl n with
+  match dco_candidate skips nl n with
   | Some r => [mkNet (nop n) (nargs n) (ndest r)]
   | None => match nop n with
             | OpW => if mem_in (ndest n) rm then [] else [n]
@@ -193,12 +204,15 @@ Definition dco_net (nl : netlist) (rm : list wid) (n : net) : list net :=
             end
   end.
 
-Definition direct_connect_outputs (nl : netlist) : netlist :=
+Definition dco_with (nl : netlist) : netlist :=
   let rm := dco_removed_dests nl in
   let rw := dco_removed_wires nl in
   mkNetlist (filter (fun x => negb (mem_in (wname x) rw)) (wires nl))
             (flat_map (dco_net nl rm) (nets nl))
             (mems nl).
+End DCO.
+
+Definition direct_connect_outputs : netlist -> netlist := dco_with dco_skips.
 
 (* ---------- two_way_fanout ---------- *)
 Definition count_args (w : wid) (ns : list net) : nat :=
@@ -270,9 +284,11 @@ Fixpoint rw_nets (ns : list net) (tab : list tentry) : list net :=
       em ++ mkNet (nop n) args' (ndest n) :: rw_nets r tab'
   end.
 
-Definition two_way_fanout (nl : netlist) : netlist :=
-  let t := build_tab (nets nl) (wires nl) (fresh nl) in
+Definition two_way_fanout_at (next : Z) (nl : netlist) : netlist :=
+  let t := build_tab (nets nl) (wires nl) next in
   mkNetlist (wires nl ++ snd t) (rw_nets (nets nl) (fst t)) (mems nl).
+
+Definition two_way_fanout (nl : netlist) : netlist := two_way_fanout_at (fresh nl) nl.
 
 (* ---------- postconditions (boolean) ---------- *)
 Definition only_ops (allowed : list Z) (nl : netlist) : bool :=
@@ -295,7 +311,8 @@ Definition post_one_bit_selects (nl : netlist) : bool :=
 
 (* no net is left whose destination exclusively feeds a 'w' net into an Output *)
 Definition post_direct_connect_outputs (nl : netlist) : bool :=
-  forallb (fun n => match dco_candidate nl n with Some _ => false | None => true end) (nets nl).
+  forallb (fun n => match dco_candidate dco_skips nl n with Some _ => false | None => true end)
+          (nets nl).
 
 Definition post_two_way_fanout (nl : netlist) : bool :=
   forallb (fun x => is_output_kind (wkind x) || (count_args (wname x) (nets nl) <=? 2)%nat)
